@@ -99,6 +99,7 @@ class ProgramRunner:
         self.sim = None
         self.uid_of: dict[int, int] = {}
         self.late_cancels: list[Event] = []
+        self._created: list[Event] = []
 
     def new_event(self, t_ns: int, to: int, k: int, daemon: bool) -> Event:
         ev = Event(time=Instant(t_ns), event_type=f"k{k}", target=self.entities[to], daemon=daemon)
@@ -114,6 +115,24 @@ class ProgramRunner:
             self.fuel -= 1
             out.append(self.new_event(now_ns + e["dt"], e["to"], e["k"], e.get("daemon", False)))
         return out
+
+    def create_initial(self, start: int = 0, stop: int | None = None) -> None:
+        """Construct initial events [start, stop) now (creation order = list order)."""
+        for ini in self.prog["initial"][start:stop]:
+            ev = self.new_event(ini["t"], ini["to"], ini["k"], ini.get("daemon", False))
+            if ini.get("cancel") == "late":
+                self.late_cancels.append(ev)
+            elif ini.get("cancel"):
+                ev.cancel()
+            self._created.append(ev)
+
+    def initial_in_schedule_order(self) -> list[Event]:
+        created = self._created
+        order = self.prog.get("sched_order") or list(range(len(created)))
+        order = [i for i in order if i < len(created)]
+        seen = set(order)
+        order += [i for i in range(len(created)) if i not in seen]
+        return [created[i] for i in order]
 
     def build_initial(self) -> list[Event]:
         created = []
